@@ -101,7 +101,7 @@ def _extract_seqdata(fname, linelen, start, index=(None, None),
                 i, j = index
                 if linelen != 0:
                     # fasta data might stretch over more than one line
-                    if header[-2] in (b'\n', b'\r'):
+                    if header[-2:] == b'\r\n':
                         nlec = 2  # Windows file ending, two chars
                     else:
                         nlec = 1  # Linux file ending, one char
